@@ -122,6 +122,11 @@ def writePotentials(potentials, cutoff, gridPoints, out = sys.stdout):
   @param gridPoints Number of grid points used to tabulate potential
   @param out Python stream object (supporting write()) to which output is sent"""
 
+  # The row count is a property of the whole file (it is declared in its header): check it here,
+  # also when there are no potentials whose blocks would be checked, or too few rows to define delpot.
+  if gridPoints%4 != 0 or gridPoints < 8:
+    raise WritePotentialException("Error: number of grid points must be a multiple of 4 and at least 8 (%d given)" % gridPoints)
+
   meshResolution = cutoff / (gridPoints-4.0)
   outputbuilder = StringIO()
   _writeTableHeader(meshResolution, cutoff, gridPoints, outputbuilder)
